@@ -1,6 +1,6 @@
 (** Property C04 — theorems only. *)
 From Coq Require Import ZArith List Bool.
-From Core Require Import Syntax Sem Equiv.
+From Core Require Import Syntax Sem Wf Equiv Subst ShiftLoop DivideLoop ReorderLoops WfSubst.
 Import ListNotations.
 
 (** a derived procedure is safe wherever the source is: it runs to completion (no out-of-bounds access,
@@ -16,3 +16,45 @@ Proof.
   eapply run_refines; [apply refines_plug, H | exact Hr].
 Qed.
 Print Assumptions C04_safety_preserved.
+
+(** well-scopedness (the checker [Wf.wf_stmt] that the harness runs on every derived procedure) is preserved by
+    the modelled rewrites: the rewritten statement is well-scoped in every scope in which the original is, the new
+    iteration Syms being fresh for that scope *)
+Theorem C04_substitution_preserves_wf : forall x c okb hid,
+  okb x = false -> (forall y, okb y = true -> hid y = false) ->
+  forall body S S' S1, WfSubst.srel x c hid S S' ->
+  forallb (Subst.okbind okb) body = true -> forallb (Subst.nm_s x hid) body = true ->
+  wf_stmts S body = Some S1 -> exists S1', wf_stmts S' (PartialEval.pe_ss x c body) = Some S1'.
+Proof. exact WfSubst.wf_body_subst. Qed.
+Print Assumptions C04_substitution_preserves_wf.
+
+Theorem C04_shift_loop_wf : forall i lo hi nlo V body par sc,
+  wf_expr sc nlo = true ->
+  forallb (Subst.okbind (ShiftLoop.okb i V)) body = true -> forallb (Subst.nm_s i (fun _ => false)) body = true ->
+  wf_stmt sc (For i lo hi body par) = Some sc ->
+  wf_stmt sc (ShiftLoop.shift_loop_rw i lo hi nlo body par) = Some sc.
+Proof. exact WfSubst.shift_preserves_wf. Qed.
+Print Assumptions C04_shift_loop_wf.
+
+Theorem C04_divide_loop_guard_wf : forall i io ii q N body par sc,
+  mem io sc = false -> mem ii sc = false -> io <> ii ->
+  forallb (Subst.okbind (DivideLoop.okbF i io ii)) body = true -> forallb (Subst.nm_s i (DivideLoop.hidF io ii)) body = true ->
+  wf_stmt sc (For i (Int 0) N body par) = Some sc ->
+  wf_stmt sc (DivideLoop.divide_guard_rw i io ii q N body par) = Some sc.
+Proof. exact WfSubst.divide_guard_preserves_wf. Qed.
+Print Assumptions C04_divide_loop_guard_wf.
+
+Theorem C04_divide_loop_perfect_wf : forall i io ii q N H body par sc,
+  mem io sc = false -> mem ii sc = false -> io <> ii -> wf_expr sc H = true ->
+  forallb (Subst.okbind (DivideLoop.okbF i io ii)) body = true -> forallb (Subst.nm_s i (DivideLoop.hidF io ii)) body = true ->
+  wf_stmt sc (For i (Int 0) N body par) = Some sc ->
+  wf_stmt sc (DivideLoop.flat_rw i io ii q H body par) = Some sc.
+Proof. exact WfSubst.divide_perfect_preserves_wf. Qed.
+Print Assumptions C04_divide_loop_perfect_wf.
+
+Theorem C04_reorder_loops_wf : forall i j li hi lj hj body pi pj sc,
+  ReorderLoops.reorder_syn_ok i (For i li hi [For j lj hj body pj] pi) = true ->
+  wf_stmt sc (For i li hi [For j lj hj body pj] pi) = Some sc ->
+  wf_stmt sc (For j lj hj [For i li hi body pi] pj) = Some sc.
+Proof. exact WfSubst.reorder_preserves_wf. Qed.
+Print Assumptions C04_reorder_loops_wf.
